@@ -111,6 +111,12 @@ META = {
         "note": TIE + " No reference writer for the cuckoo formats (the file is pinned as a function of the table; which table results is C03/C15). A compiled C reader is not part of the registered checks.",
         "technique": "Lean 4 proof (model encode = independent layout spec; reference reader/writer equivalence) + translator-regenerated layouts + correspondence",
     },
+    "C14": {
+        "text": "One counter invariant per structure over unbounded histories and all oracles: Bloom count = completed adds since the last clear (C14_bloom_history); on-disk: in-memory and stored count = adds, across close/reopen and clear (C14_ondisk_history*, from C11); expanding/rotating added = number of add calls incl. suppressed duplicates, with push/pop (C14_expanding_counted, C14_rotating_counted*); counting Bloom / count-min: net amounts with the exact clamped forms (C14_cbf_history, C14_cms_history); cuckoo and counting cuckoo: elements_added = Σ bin counts and unique_elements = number of bins preserved by add/remove/expand for ALL G and ALL oracles through kick chains, failed adds, expansions and load (C14_cuckoo_run, C14_cuckoo_load); quotient filter: ±1 per effective add/remove (C14_qf_*, whole-history link via C04); statistics at ℝ: estimate = ⌊−(m/k)·ln(1−X/m)⌋ (−1 when X ≥ m), fpr = (1−e^{−kn/m})^k (C14_stats_*); union/intersection carry the estimate. Tie: counter facets of every suite after every single step; stats bit-for-bit with the Float instance.",
+        "design_ref": "§4 C14",
+        "note": TIE + " Float statistics: formula identity over ℝ + bit-for-bit correspondence; IEEE rounding not verified. Quotient filter count = number of stored hashes rests on C04 (partial).",
+        "technique": "Lean 4 proof (counter invariants by induction over histories, ∀ oracle) + correspondence after every step",
+    },
 }
 
 ALL = ["C%02d" % i for i in range(1, 21)]
